@@ -905,7 +905,9 @@ def run(run):
         lambda t: '.registry.' in t,
         lambda t: ', $, $.sum())' in t or '$[1].sum()' in t,
         lambda t: '$hostPath' in t or '$hostDefaults' in t,
-        lambda t: 'probe(' in t)]
+        lambda t: 'probe(' in t,
+        # sorts with different orderings that overlap
+        lambda t: '$.items.orderBy' in t)]
     fac_pairs = [((i, 0), (j, 2)) for g in groups for i in g for j in g]
     pairs += [((i, 0), (i, 0)) for i in range(0, n, 3)]
     if not full:
@@ -921,6 +923,8 @@ def run(run):
            for i in range(0, n, 1 if full else 3)]
     # a short statement that starts first and ends while a statement that
     # remembers an iterator is between two passes over it
+    # statements that belong together, as nested overlaps too
+    ov += fac_pairs
     mem = [i for i, t in enumerate(POOL) if 'memorize' in t or
            'defaultIfEmpty' in t or '.join($src' in t]
     ov += [((s_, 0), (i, 1)) for i in mem for s_ in (0, 3)]
